@@ -1,17 +1,19 @@
 #!/bin/bash
 # Runs every kept seeded change against the first check that is recorded to catch it
 # (scratch worktree per change, /repo untouched) and prints one line per change.
-# usage: tools/run_seeds.sh [name-pattern]
+# usage: [JOBS=n] tools/run_seeds.sh [name-pattern]
 cd /verif
 pat=${1:-.}
-ok=0; bad=0
-for d in seeded/*/; do
-  n=$(basename $d)
-  echo "$n" | grep -q -- "$pat" || continue
+one() {
+  d=$1; n=$(basename $d)
   c=$(jq -r '.caught_by[0]' $d/meta.json)
   out=$(timeout 2400 tools/sens.sh $c $d/patch.diff 2>&1)
   rc=$(echo "$out" | sed -n 's/^== .* exit=\([0-9]*\)$/\1/p')
   cls=$(echo "$out" | sed -n 's/^violation class=\([^ ]*\) .*/\1/p' | head -2 | tr '\n' ' ')
-  if [ "$rc" = "1" ]; then ok=$((ok+1)); echo "CAUGHT  $n by $c: $cls"; else bad=$((bad+1)); echo "MISSED  $n by $c (exit=$rc)"; fi
-done
-echo "seeded changes caught: $ok, missed: $bad"
+  if [ "$rc" = "1" ]; then echo "CAUGHT  $n by $c: $cls"; else echo "MISSED  $n by $c (exit=$rc) $(echo "$out" | grep -m1 -E 'cannot apply|INFRA' | cut -c1-120)"; fi
+}
+export -f one
+ls -d seeded/*/ | sed 's#/$##' | grep -- "$pat" | xargs -P ${JOBS:-1} -I{} bash -c 'one {}' | sort -k2 > /tmp/run_seeds.$$
+cat /tmp/run_seeds.$$
+echo "seeded changes caught: $(grep -c '^CAUGHT' /tmp/run_seeds.$$), missed: $(grep -c '^MISSED' /tmp/run_seeds.$$)"
+rm -f /tmp/run_seeds.$$
